@@ -14,7 +14,8 @@ else
   shift 1
 fi
 [ "$1" = "--" ] && shift
-VERIF_REPO=$SCR/repo "$@"
+# what a run on a changed tree observes is not evidence about /repo
+VERIF_EVIDENCE_DIR=${VERIF_EVIDENCE_DIR:-/dev/shm/verif-mutant-evidence} VERIF_REPO=$SCR/repo "$@"
 rc=$?
 tag=$(python3 -c "import hashlib,os;print(hashlib.sha1(os.path.realpath('$SCR/repo').encode()).hexdigest()[:10])")
 rm -rf $SCR /verif/build/*-$tag
